@@ -69,7 +69,8 @@ def run(ctx):
         # which the back-transformation multiplies by n - 1 again; relative to the fluctuations that is n |mean| eps / rms(delta)
         dscale = float(np.sqrt(np.mean(np.asarray(o.deltas[name], dtype=float) ** 2)))
         tolv = 2.0 ** -30 if dscale == 0.0 else max(2.0 ** -30, min(2.0 ** -12, 64.0 * n * max(abs(float(o.value)), 1.0) * 2.0 ** -53 / dscale))
-        tol = qlit(tolv)
+        mag = max(1.0, float(np.max(np.abs(np.asarray(o.deltas[name], dtype=float) + float(o.r_values[name])))))
+        tol = "%s %s" % (qlit(tolv), qlit(tolv * mag))          # relative, absolute (scaled with the magnitude of the samples)
         term = "(mkJC %s %s %s %s %s %s %s %s %s %s %s)" % (
             qlit(float(o.value)), qlit(float(o.r_values[name])), _ql(o.deltas[name]), _ql(jacks),
             qlit(float(imp.value)), qlit(float(imp.r_values[name])), _ql(imp.deltas[name]), qlit(naive),
